@@ -223,6 +223,10 @@ pub fn a_comp() -> Alphabet {
             "~{2%kg}",
             "@p{1}",
             "@&a{1%l}",
+            // a two-word name and references that spell the blank differently
+            "@a b{}",
+            "@&a\u{a0}b{}",
+            "@&a\tb{}",
         ],
     )
 }
